@@ -619,19 +619,22 @@ func newVApp(w *vk.World, d *memDCS, o vAppOpts) *vApp {
 		panic(err)
 	}
 	d.silent = true
-	if err := app.cluster.UpdateHostsInfo(); err != nil {
-		panic(err)
-	}
+	_ = app.cluster.UpdateHostsInfo() // a process started during a coordination outage has an empty registry
 	d.silent = false
-	// same wiring as initializeOptimizationModule, with the adapter's one-time
-	// `create optimization_nodes` done during setup
+	vInitOpt(app, d)
+	return &vApp{app: app, cfg: &cfg, dcs: d, dir: dir}
+}
+
+// vInitOpt: same wiring as initializeOptimizationModule, with the adapter's one-time
+// `create optimization_nodes` done silently (setup)
+func vInitOpt(app *App, d *memDCS) {
+	was := d.silent
 	d.silent = true
 	ad := app_dcs.NewOptimizationDCSAdapter(d)
 	_, _ = ad.GetHosts()
-	d.silent = false
-	app.optSyncer = optimization.NewSyncer(logger, cfg.OptimizationConfig, ad)
-	app.optController = optimization.NewController(cfg.OptimizationConfig, logger, ad, 3*time.Second)
-	return &vApp{app: app, cfg: &cfg, dcs: d, dir: dir}
+	d.silent = was
+	app.optSyncer = optimization.NewSyncer(app.logger, app.config.OptimizationConfig, ad)
+	app.optController = optimization.NewController(app.config.OptimizationConfig, app.logger, ad, 3*time.Second)
 }
 
 // ---------------------------------------------------------------- transcript printing
